@@ -9,82 +9,26 @@
    --                                                     -----
    newTraceKey: sort.Strings(fields); split "root."       prepare
    span.Data.Exists(f) / Get(f)                           sp_get f span  (a span is an association list)
-   distinctValue.AddAsString (type switch)                render_add ; wyhash(buf) is an injective oracle,
+   appendValueAsString (type switch, used by              render_add ; wyhash(buf) is an injective oracle,
+     AddAsString and for root fields)
                                                           so the per-field map is a duplicate-free list
    "totalUniqueCount >= maxKeyLength -> break outer"      scan / collect  (count first, store only while
    "totalUniqueCount++ ; >= max -> not stored"                             the count stays below the cap)
    Values(i): sort.Strings of the map values              ssort
    prevStr de-dup, WriteRune('•'), WriteRune(',')         dedup_prev / emit_field
-   root fields: fmt.Sprintf("%v,", v)                     root_part (render_root)
+   root fields: appendValueAsString(v) + ','              root_part (render_root = render_add)
    strconv.FormatInt(len(spans))                          len_part
    rate = uint(dyn.GetSampleRateMulti(..)); <1 -> 1       rate_floor   (dynsampler result: oracle)
    rand.Intn(int(rate)) == 0                              keep_of draw (draw: oracle in [0, rate))
 
    Constants and flags come from Gen/GenC11.v.  No proofs in this file. *)
-From Refinery Require Import Lib.Base.
+From Refinery Require Export Lib.Base Lib.Strs_samp.
 From Refinery Require Gen.GenC11.
-
-Definition str := list N.
-
-(* printable-ASCII helper used by the generated case files *)
-Definition u (s : string) : str := map N_of_ascii (list_ascii_of_string s).
-
-(* the same with escapes: a backslash followed by a decimal code point and ';' stands for that
-   code point (used by the harness for non-ASCII characters and the backslash itself) *)
-Fixpoint ue_go (l : list N) (acc : option N) : str :=
-  match l with
-  | [] => []
-  | c :: r =>
-      match acc with
-      | None => if (c =? 92)%N then ue_go r (Some 0%N) else c :: ue_go r None
-      | Some a => if (c =? 59)%N then a :: ue_go r None else ue_go r (Some (a * 10 + (c - 48))%N)
-      end
-  end.
-Definition ue (s : string) : str := ue_go (u s) None.
 
 Definition BUL : N := 8226%N.     (* '•' *)
 Definition COMMA : N := 44%N.     (* ',' *)
 Definition MAXK : N := GenC11.max_key_length.
 Definition ROOTP : str := u GenC11.root_prefix.
-
-(* ---------- strings: equality, order, sorting ---------- *)
-Definition str_eqb (a b : str) : bool := list_eqb N.eqb a b.
-
-Fixpoint str_leb (a b : str) : bool :=
-  match a, b with
-  | [], _ => true
-  | _ :: _, [] => false
-  | x :: a', y :: b' => if (x <? y)%N then true else if (y <? x)%N then false else str_leb a' b'
-  end.
-
-Fixpoint sinsert (x : str) (l : list str) : list str :=
-  match l with
-  | [] => [x]
-  | y :: r => if str_leb x y then x :: l else y :: sinsert x r
-  end.
-Fixpoint ssort (l : list str) : list str :=
-  match l with [] => [] | x :: r => sinsert x (ssort r) end.
-
-Fixpoint mem_str (x : str) (l : list str) : bool :=
-  match l with [] => false | y :: r => str_eqb x y || mem_str x r end.
-
-Fixpoint has_prefix (p s : str) : bool :=
-  match p, s with
-  | [], _ => true
-  | _ :: _, [] => false
-  | a :: p', b :: s' => N.eqb a b && has_prefix p' s'
-  end.
-
-(* ---------- decimal rendering ---------- *)
-Fixpoint dec_digits (fuel : nat) (n : N) (acc : str) : str :=
-  match fuel with
-  | O => acc
-  | S f => let acc' := (48 + n mod 10)%N :: acc in
-           if (n / 10 =? 0)%N then acc' else dec_digits f (n / 10)%N acc'
-  end.
-Definition dec_N (n : N) : str := dec_digits (S (N.to_nat (N.log2 n))) n [].
-Definition dec_Z (z : Z) : str :=
-  if z <? 0 then 45%N :: dec_N (Z.to_N (- z)) else dec_N (Z.to_N z).
 
 (* ---------- values, spans, traces ---------- *)
 Inductive value :=
@@ -92,23 +36,37 @@ Inductive value :=
 | VInt (z : Z)                      (* int, int64 *)
 | VBool (b : bool)
 | VNil
-| VOracle (r_add r_root : str).     (* float64 / other types: strconv 'f' and %v renderings supplied by the harness *)
+| VFloat (neg : bool) (mant : N) (exp : Z) (ftext : str)
+      (* float64 = (-1)^neg * mant * 2^exp exactly (finite values only);
+         ftext = strconv.AppendFloat(v, 'f', -1, 64), supplied by the harness (oracle) *)
+| VOracle (r : str).                (* any other type: fmt %v rendering supplied by the harness *)
 
 Definition s_true : str := [116; 114; 117; 101]%N.
 Definition s_false : str := [102; 97; 108; 115; 101]%N.
 Definition s_nil : str := [60; 110; 105; 108; 62]%N.
 
+(* v == math.Trunc(v): the exact integer value when the float is whole *)
+Definition float_whole (mant : N) (exp : Z) : option N :=
+  if 0 <=? exp then Some (mant * 2 ^ Z.to_N exp)%N
+  else let d := (2 ^ Z.to_N (- exp))%N in
+       if (mant mod d =? 0)%N then Some (mant / d)%N else None.
+
+(* appendValueAsString, float64 arm: whole and |v| < 2^63 -> the int64 text, else the 'f' text *)
+Definition render_float (neg : bool) (mant : N) (exp : Z) (ftext : str) : str :=
+  match float_whole mant exp with
+  | Some n => if (n <? 9223372036854775808)%N
+              then dec_Z (if neg then - Z.of_N n else Z.of_N n)
+              else ftext
+  | None => ftext
+  end.
+
+(* appendValueAsString: one rendering for per-span key fields and for root.-prefixed fields *)
 Definition render_add (v : value) : str :=
   match v with
   | VStr s => s | VInt z => dec_Z z | VBool b => if b then s_true else s_false
-  | VNil => s_nil | VOracle a _ => a
+  | VNil => s_nil | VFloat g m e t => render_float g m e t | VOracle r => r
   end.
-(* fmt %v *)
-Definition render_root (v : value) : str :=
-  match v with
-  | VStr s => s | VInt z => dec_Z z | VBool b => if b then s_true else s_false
-  | VNil => s_nil | VOracle _ r => r
-  end.
+Definition render_root (v : value) : str := render_add v.
 
 Definition span := list (str * value).
 Fixpoint sp_get (f : str) (s : span) : option value :=
